@@ -794,9 +794,11 @@ func (s *Seq) reopen(closeFirst bool, create bool) {
 
 // readTag is the oracle tag for read mismatches in the current context.
 func (s *Seq) readTag() string {
-	if s.rejected {
+	if s.rejected && s.Prop != "C01" {
 		return "reject"
 	}
+	// C01 quantifies over every point of any sequence of calls, refused ones included:
+	// a read path that misreports the stored set right after a refused write is its violation too
 	return "read"
 }
 
